@@ -29,6 +29,11 @@ type c02Case struct {
 	// reacted to the timeout (state-based wait), then sends the rest. Whatever
 	// the server does then, the rest of the message must not be executed.
 	StallAt int `json:"stall_at,omitempty"`
+	// LineLimit > 0: Server.MaxLineLength is this (the default, 2000, is out
+	// of reach of these messages otherwise). When a stretch of the message
+	// outgrows it the server may give up the connection, and as after a
+	// stall only "nothing of the message is executed" is demanded.
+	LineLimit int `json:"line_limit,omitempty"`
 }
 
 var c02Baits = []string{
@@ -84,8 +89,24 @@ func c02Gen(t *rapid.T) c02Case {
 			body = append(body, rapid.SliceOfN(rapid.Byte(), 1, 6).Draw(t, "raw")...)
 		}
 	}
+	lineLimit := 0
+	if rapid.IntRange(0, 5).Draw(t, "line_limit_on") == 0 {
+		lineLimit = rapid.IntRange(32, 64).Draw(t, "line_limit")
+		if rapid.IntRange(0, 3).Draw(t, "long_line") != 0 {
+			// an over-long line somewhere in the message, baits behind it
+			long := bytes.Repeat([]byte("y"), rapid.IntRange(lineLimit-3, 2*lineLimit+3).Draw(t, "long_len"))
+			at := rapid.IntRange(0, len(body)).Draw(t, "long_at")
+			nb := append([]byte(nil), body[:at]...)
+			nb = append(nb, long...)
+			if rapid.Bool().Draw(t, "long_crlf") {
+				nb = append(nb, "\r\n"...)
+			}
+			body = append(nb, body[at:]...)
+			body = append(body, rapid.SampledFrom(c02Baits).Draw(t, "bait_behind")...)
+		}
+	}
 	body = c02Defuse(body)
-	c := c02Case{Body: body}
+	c := c02Case{Body: body, LineLimit: lineLimit}
 	c.Markers = []string{"MAIL FROM:<marker0@x>\r\n"}
 	for i, k := 0, rapid.IntRange(0, 3).Draw(t, "nmark"); i < k; i++ {
 		c.Markers = append(c.Markers, rapid.SampledFrom([]string{"RCPT TO:<marker1@x>\r\n", "NOOP\r\n", "RCPT TO:<marker2@x>\r\n"}).Draw(t, "marker"))
@@ -141,6 +162,11 @@ func c02Run(c c02Case) Verdict {
 	stall := c.StallAt > 0 && c.StallAt < markerOff
 	if stall {
 		cfg.ReadTimeoutMs = 30
+	}
+	overlong := false
+	if c.LineLimit >= 32 {
+		cfg.MaxLineLength = c.LineLimit
+		overlong = maxStretch(stream[:markerOff]) > c.LineLimit
 	}
 	script := harness.Script{LMTPSession: c.Mode == 2,
 		Data: []harness.DataPlan{{Read: harness.ReadPlan{Sizes: c.Reads, Limit: c.ReadLim}, Result: c.Result, Honest: true}}}
@@ -219,12 +245,20 @@ func c02Run(c c02Case) Verdict {
 			return failf("bait-executed", "message content was executed as a command: %s (stream %s)", e, q(stream))
 		}
 	}
-	if stall {
-		// after a timeout in the middle of the message only (i) is demanded:
-		// the markers behind the end marker may or may not be reached
+	if c.LineLimit >= 32 {
+		v.Classes = append(v.Classes, "small_line_limit")
+	}
+	if overlong {
+		v.Classes = append(v.Classes, "overlong_line_in_message")
+		v.NonTrivial = hasBait
+	}
+	if stall || overlong {
+		// after a timeout or an over-long line in the middle of the message
+		// only (i) is demanded: the markers behind the end marker may or may
+		// not be reached
 		for _, e := range evs {
 			if e.CB == "Mail" && e.Begin && e.From != "s@x" && e.From != "marker0@x" {
-				return failf("bait-executed", "after a read timeout inside the message, a later part of it was executed: %s", e)
+				return failf("bait-executed", "after a read timeout or over-long line inside the message, a later part of it was executed: %s", e)
 			}
 		}
 		if _, err := harness.ParseRepliesLenient(rest); err != nil {
@@ -304,7 +338,7 @@ func init() {
 
 func TestC02(t *testing.T) {
 	registerAll()
-	st.Rule = "cases = (message with bait command lines and end-marker look-alikes, marker commands pipelined after the true end marker, segmentation, backend read limit/verdict, size limit, SMTP/LMTP mode, recipients); non-trivial = message contains a bait or look-alike AND (partial/no read OR rejection OR over the size limit OR LMTP); distinct = hash of the whole case"
+	st.Rule = "cases = (message with bait command lines and end-marker look-alikes, marker commands pipelined after the true end marker, segmentation, backend read limit/verdict, size limit, SMTP/LMTP mode, recipients, optional stall past the read timeout, optional small line limit with or without an over-long message line); non-trivial = message contains a bait or look-alike AND (partial/no read OR rejection OR over the size limit OR LMTP); distinct = hash of the whole case"
 	if !regress(t, "C02") {
 		return
 	}
